@@ -5,7 +5,7 @@ import struct
 from ..facts import AnchorMissing
 from ..guards import analysis, accessor_field, field_index
 from ..sym import Sym
-from ..terms import strip, short, cname, same, walk
+from ..terms import strip, short, cname, same, walk, unmut
 
 LEVEL = "other"
 R = "alpha_g_physics::reconstruction::"
@@ -126,7 +126,18 @@ def run(prog, tier, res):
             a1 = strip(can.terms.operand(t["args"][1]))
             # helix of the closure's element
             hi = field_index(prog, TRACK, "helix")
-            ok_h = a0[0] == "field" and a0[2] == hi and strip(a0[1]) == ("param", 2)
+            elem = strip(a0[1]) if a0[0] == "field" else None
+
+            def is_track_elem(e):
+                """the closure's element (`tracks.into_iter().map(|track| ..)`) or the element of a loop over the tracks"""
+                if e == ("param", 2):
+                    return True
+                e = unmut(e)
+                if e[0] == "field" and e[2] == 0 and unmut(e[1])[0] == "downcast" and unmut(e[1])[2] == "Some":
+                    nx = unmut(unmut(e[1])[1])
+                    return nx[0] == "call" and short(nx[1]) == "Iterator::next"
+                return False
+            ok_h = a0[0] == "field" and a0[2] == hi and elem is not None and is_track_elem(elem)
             ok_p = False
             if a1[0] == "aggr" and a1[1].endswith("SpacePoint::SpacePoint") and len(a1[2]) == 3:
                 r_, phi, z = [strip(x) for x in a1[2]]
@@ -135,10 +146,48 @@ def run(prog, tier, res):
                     py, px = strip(phi[2][0]), strip(phi[2][1])
                     base_ok = (x0[0] == "field" and y0[0] == "field" and z[0] == "field" and same(x0[1], y0[1]) and same(x0[1], z[1])
                                and (x0[2], y0[2], z[2]) == (0, 1, 2))
+                    if not base_ok:
+                        # the position's components are still visible as the operands of the Coordinate stored in
+                        # VertexInfo.position by this body
+                        pi_ = field_index(prog, R + "VertexInfo", "position")
+                        for bi, si, st in body.stmts():
+                            if st["k"] == "assign" and st["rv"]["k"] == "aggr" and st["rv"].get("p", "").endswith("::VertexInfo"):
+                                can.terms._pos = (bi, si)
+                                pos_t = strip(can.terms.operand(st["rv"]["ops"][pi_]))
+                                if pos_t[0] == "aggr" and pos_t[1].endswith("Coordinate::Coordinate") and len(pos_t[2]) == 3:
+                                    X, Y, Z = [strip(c_) for c_ in pos_t[2]]
+                                    base_ok = same(x0, X) and same(y0, Y) and same(z, Z)
                     ok_p = base_ok and same(px, x0) and same(py, y0)
             rets = [strip(r) for _, r in can.ret_assignments()]
-            ok_r = len(rets) == 1 and rets[0][0] == "aggr" and rets[0][1] == "tuple" and len(rets[0][2]) == 2 and \
-                strip(rets[0][2][0]) == ("param", 2) and strip(rets[0][2][1])[0] == "call" and strip(rets[0][2][1])[3] == bb
+
+            def is_pair(v):
+                return v[0] == "aggr" and v[1] == "tuple" and len(v[2]) == 2 and elem is not None and same(strip(v[2][0]), elem) and \
+                    strip(v[2][1])[0] == "call" and strip(v[2][1])[3] == bb
+            ok_r = len(rets) == 1 and is_pair(rets[0])
+            if not ok_r:
+                # loop form: the pair is pushed once per element and the vector becomes VertexInfo.tracks
+                pushes = [(b2, t2) for b2, t2 in body.calls() if short(cname(t2)) == "Vec::<T, A>::push" and is_pair(strip(can.terms.operand(t2["args"][1])))]
+                if len(pushes) == 1:
+                    tgt = pushes[0][1]["args"][0]
+                    vloc = None
+                    for bi, si, st in body.stmts():
+                        if st["k"] == "assign" and not st["p"]["pr"] and tgt.get("k") in ("move", "copy") and st["p"]["l"] == tgt["p"]["l"] and st["rv"]["k"] == "ref":
+                            vloc = st["rv"]["p"]["l"]
+                    ti = field_index(prog, R + "VertexInfo", "tracks")
+                    for bi, si, st in body.stmts():
+                        if st["k"] == "assign" and st["rv"]["k"] == "aggr" and st["rv"].get("p", "").endswith("VertexInfo") and vloc is not None:
+                            op = st["rv"]["ops"][ti]
+                            src = op["p"]["l"] if op.get("k") in ("move", "copy") and not op["p"]["pr"] else None
+                            for _ in range(4):         # `_t = move vec` temporaries
+                                if src is None or src == vloc:
+                                    break
+                                ds = [s2 for _, _, s2 in body.stmts() if s2["k"] == "assign" and not s2["p"]["pr"] and s2["p"]["l"] == src]
+                                if len(ds) == 1 and ds[0]["rv"]["k"] == "use" and ds[0]["rv"]["o"].get("k") in ("move", "copy") and not ds[0]["rv"]["o"]["p"]["pr"]:
+                                    src = ds[0]["rv"]["o"]["p"]["l"]
+                                else:
+                                    break
+                            if src == vloc:
+                                ok_r = True
             for ok, what, key in ((ok_h, "closest_t is not evaluated on the helix of the track it is reported for", "helix"),
                                   (ok_p, "the point handed to closest_t is not the fitted vertex position as (r = hypot(x, y), phi = atan2(y, x), z)", "point"),
                                   (ok_r, "the pair reported in VertexInfo.tracks is not (track, closest_t(track, vertex))", "pair")):
